@@ -114,7 +114,9 @@ var BaseStrategies = []*StratEntity{
 		if c == nil {
 			return sm.NewTripleRsiStrategy()
 		}
-		return sm.NewTripleRsiStrategyWith(c[0], c[1], 1+c[2]%4, 60, 30, 50)
+		// the strategy aligns the RSI to the (much longer) SMA: the SMA's idle period must not be
+		// shorter than the RSI's, as in the documented 5/200 setting
+		return sm.NewTripleRsiStrategyWith(min(c[0], c[1]), max(c[0], c[1])+1, 1+c[2]%4, 60, 30, 50)
 	}},
 	{Name: "volatility.BollingerBands", Make: func(c []int) strategy.Strategy { return sv.NewBollingerBandsStrategy() }},
 	{Name: "volatility.SuperTrend", NCfg: 1, Make: func(c []int) strategy.Strategy {
